@@ -12,15 +12,15 @@ RULE = ("oracle histories for the real Engine.price driven by a scripted couplin
         "scripted public ConvergenceCriteria: random (initial level 0..4, N0 1..230, max level <= 8, 1..7 iterations, sizes that "
         "grow / stall / shrink, verdicts, convergence rates from a set of 5 with 2^rate exact) + the directed families 'level added at "
         "iteration t whose first pass has dN in {0,1,2,5}' and 'return with a top-up within the 1 % rule'; fixed-level variant for max "
-        "level 0..5; with control variates: the same random histories on a second scripted process (non-monotone dyadic values) with one "
-        "scripted control (square / call / forward of the terminal value, own notional and price) + one-level cases whose control mean "
+        "level 0..5; with control variates: the same random histories on a second scripted process (non-monotone dyadic values) with one or "
+        "two scripted controls (square / call / forward of the terminal value, own notional and price) + one-level cases whose control mean "
         "equals its price exactly. Every read point of every history is checked (rows, control rows, adjusted rows, what the criteria "
         "callbacks received). non-trivial = at least two passes or one level addition; distinct = distinct (configuration, history)")
 NOT_PROVED = ["numpy/scipy moment kernels (np.mean, scipy.stats.moment, np.cov) are compared with the model's exact rational moments, not proved",
               "control variates in the multilevel engine: the bookkeeping theorems (same rows, adjusted row formula, price = sum of adjusted level "
               "means, cv_mean_identity_mlmc) hold for any number of controls and any regression kernel; the kernel itself is the exact "
-              "one-control formula in the driver (two or more controls in the multilevel engine are not compared), payoff dimension 1 "
-              "(the multilevel results only read payoff component 0)",
+              "kernel as coded for one and two controls in the driver (guard, inverse, pseudo-inverse: Stats.kernelOf; three or more controls in "
+              "the multilevel engine are not compared), payoff dimension 1 (the multilevel results only read payoff component 0)",
               "the cost of one simulation of a level is a constant of the scripted process (cl = that constant is proved from sum_cost = cost x N_l); "
               "a real coupling process measures it, which is outside the model",
               "regression of alpha, beta, gamma when the rates are not given (np.linalg.lstsq) is not modelled: rates are given in every run",
@@ -28,7 +28,10 @@ NOT_PROVED = ["numpy/scipy moment kernels (np.mean, scipy.stats.moment, np.cov) 
 ASSUMPTIONS = ["the 1% rule is compared away from its float boundary (histories with 100*dN == N are not generated)",
                "adjusted rows / level statistics with control variates are compared at 2^-40 relative to a cancellation-aware scale "
                "(rounding of cov/var amplified by 1/var); raw rows, control rows, N_l and all shapes exactly",
-               "levels without samples (N_l = 0, numpy gives nan) are excluded from the comparison of the fed ml/vl/cl and counted"]
+               "levels without samples (N_l = 0, numpy gives nan) are excluded from the comparison of the fed ml/vl/cl and counted",
+               "two controls: read points where Sigma_X has an entry within a factor 10 of the 1e-12 guard or is nearly-but-not-exactly singular "
+               "are don't-care points of the float guard / pseudo-inverse cut-off (excluded, counted)",
+               "engine reuse: the same Engine object is re-configured through its public configuration attributes between runs"]
 TRUSTED = ["copy.deepcopy of the coupling process per level; numpy array assignment / np.pad"]
 
 
@@ -347,40 +350,70 @@ def parse_read_cv(block, k):
     return d
 
 
-def _b_ref(x, y):
-    """one-control regression coefficient as the statement words it (sample regression coefficient; 0 for a constant control)"""
-    vx = float(np.var(x))
-    return 0.0 if abs(vx) < 1e-12 else float(np.cov(x, y, bias=True)[0, 1] / vx)
+def _b_ref(X, y):
+    """regression coefficients of one column as the statement words them (sample regression coefficients; 0 when the guard of
+    helper_compute_coefficients fires): X of shape (k, n)"""
+    k = X.shape[0]
+    cov = np.atleast_2d(np.cov(X, y, bias=True))
+    sx, sxy = cov[:-1, :-1], cov[:-1, -1]
+    if float(np.amin(np.abs(sx))) < 1e-12:
+        return np.zeros(k)
+    return np.linalg.pinv(sx, hermitian=True) @ sxy
 
 
-def _adj_scale(x, y, price):
-    """cancellation-aware magnitude of Y - b (X - price): rounding of cov / var is amplified by 1/var"""
-    n = len(y)
+def _col_info(X, y, pr):
+    """(scale, cond, dont_care) of one column: cancellation-aware magnitude of Y - b (X - price) (rounding of cov / var is amplified by
+    1/var, for two controls by cond(Sigma_X)); dont_care = an entry of Sigma_X within a factor 10 of the 1e-12 guard, or Sigma_X nearly but
+    not exactly singular (the float pseudo-inverse cut-off decides)"""
+    from fractions import Fraction as F
+    k, n = X.shape
     if n == 0:
-        return 1.0
-    dx, dy = float(np.max(np.abs(x - np.mean(x)))), float(np.max(np.abs(y - np.mean(y))))
-    vx = float(np.var(x))
-    sb = 0.0 if vx < 1e-12 else (dx * dy / vx) * (1.0 + dx * dx / vx)
-    return float(np.max(np.abs(y))) + n * sb * float(np.max(np.abs(x - price))) + 1e-300
+        return 1.0, 1.0, False
+    sc = float(np.max(np.abs(y)))
+    sx = np.atleast_2d(np.cov(X, bias=True))
+    dont_care = bool(np.any((np.abs(sx) > 1e-13) & (np.abs(sx) < 1e-11)))
+    cond = 1.0
+    if float(np.amin(np.abs(sx))) >= 1e-12:
+        dy = float(np.max(np.abs(y - np.mean(y))))
+        for j in range(k):
+            dx = float(np.max(np.abs(X[j] - np.mean(X[j]))))
+            vx = float(np.var(X[j]))
+            sc += n * (dx * dy / vx) * (1.0 + dx * dx / vx) * float(np.max(np.abs(X[j] - pr[j])))
+        if k == 2:
+            with np.errstate(all="ignore"):
+                cond = float(np.linalg.cond(sx))
+            Xq = [[F(float(v)) for v in X[j]] for j in range(2)]
+            m = [sum(r) / n for r in Xq]
+            cvq = lambda p_, q_: sum((a_ - m[p_]) * (b_ - m[q_]) for a_, b_ in zip(Xq[p_], Xq[q_]))
+            exact_singular = cvq(0, 0) * cvq(1, 1) - cvq(0, 1) ** 2 == 0
+            if exact_singular:
+                ev = np.abs(np.linalg.eigvalsh(sx))
+                dont_care = dont_care or float(ev.min()) > 1e-16 * float(ev.max())       # kept by the float cut-off (finding C07-pinv-cutoff) or too close to it
+                cond = 1.0
+            elif cond > 1e10:
+                dont_care = True
+            sc *= max(1.0, cond / 1e3)
+    return sc + 1e-300, cond, dont_care
 
 
-def _cv_columns(snap, l, j=0):
-    """(y_fine, y_coarse, x_fine, x_coarse) of level l as float vectors; the level-0 control array has no coarse part"""
+def _cv_columns(snap, l, k):
+    """(y_fine, y_coarse, X_fine (k, n), X_coarse (k, n)) of level l as float arrays; the level-0 control array has no coarse part"""
     Y, X = snap["rows"][l], snap["xrows"][l]
     n = Y.shape[0]
-    xf = X[:, j, 0] if X.ndim == 3 else X[:, j, 0, 0]
-    xc = np.zeros(n) if X.ndim == 3 else X[:, j, 0, 1]
+    xf = np.array([X[:, j, 0] if X.ndim == 3 else X[:, j, 0, 0] for j in range(k)]).reshape(k, n)
+    xc = np.array([np.zeros(n) if X.ndim == 3 else X[:, j, 0, 1] for j in range(k)]).reshape(k, n)
     return Y[:, 0, 0], Y[:, 0, 1], xf, xc
 
 
 def oracle_cv(ctx, desc, snap, log_upto, specs, cls):
     """S (independent of M) for the control-variate path at one read point"""
     sims = {}
-    for kind, l, k in log_upto:
+    for kind, l, k_ in log_upto:
         if kind == "sim":
-            sims.setdefault(l, []).append(k)
-    kind, par, notional, price_x = specs[0]
-    total, total_raw, centred = 0.0, 0.0, True
+            sims.setdefault(l, []).append(k_)
+    k = len(specs)
+    pr = np.array([float(sp[3]) for sp in specs])
+    total, total_raw, centred, scale, dont_care = 0.0, 0.0, True, 0.0, False
     for l, Y in enumerate(snap["rows"]):
         ks = sims.get(l, [])
         n = Y.shape[0]
@@ -388,46 +421,52 @@ def oracle_cv(ctx, desc, snap, log_upto, specs, cls):
         what = None
         if snap["Nl"][l] != len(ks) or n != len(ks):
             what = f"level {l}: N_l={snap['Nl'][l]}, {n} raw rows, {len(ks)} samples simulated"
-        elif A.shape != Y.shape or X.shape[0] != n:
+        elif A.shape != Y.shape or X.shape[0] != n or X.shape[1] != k:
             what = f"level {l}: adjusted {A.shape} / control {X.shape} arrays do not have the rows of the raw array {Y.shape}"
         if what:
             ctx.fail("oracle", "c05.cv_rows", desc, {"what": what}, cls=cls)
             return False
-        yf, yc, xf, xc = _cv_columns(snap, l)
-        exp_yf = [fe.DF * fe.fine_value_v(l, k) for k in ks]
-        exp_yc = [0.0 if l == 0 else fe.DF * fe.coarse_value_v(l, k) for k in ks]
-        exp_xf = [fe.DF * notional * fe.control_value(kind, par, fe.fine_value_v(l, k)) for k in ks]
-        exp_xc = [0.0 if l == 0 else fe.DF * notional * fe.control_value(kind, par, fe.coarse_value_v(l, k)) for k in ks]
+        yf, yc, xf, xc = _cv_columns(snap, l, k)
+        exp_yf = [fe.DF * fe.fine_value_v(l, i) for i in ks]
+        exp_yc = [0.0 if l == 0 else fe.DF * fe.coarse_value_v(l, i) for i in ks]
         if yf.tolist() != exp_yf or yc.tolist() != exp_yc:
             ctx.fail("oracle", "c05.rows_are_samples", desc, {"what": f"raw rows of level {l} are not the simulated samples in order"}, cls=cls)
             return False
-        if xf.tolist() != exp_xf or xc.tolist() != exp_xc:
-            ctx.fail("oracle", "c05.cv_rows", desc, {"what": f"control rows of level {l} are not the controls of the simulated samples in order",
-                                                    "got": xf[:6].tolist(), "expected": exp_xf[:6]}, cls=cls)
-            return False
+        for j, (kind, par, notional, _) in enumerate(specs):
+            exp_xf = [fe.DF * notional * fe.control_value(kind, par, fe.fine_value_v(l, i)) for i in ks]
+            exp_xc = [0.0 if l == 0 else fe.DF * notional * fe.control_value(kind, par, fe.coarse_value_v(l, i)) for i in ks]
+            if xf[j].tolist() != exp_xf or xc[j].tolist() != exp_xc:
+                ctx.fail("oracle", "c05.cv_rows", desc, {"what": f"control rows of level {l} (control {j}) are not the controls of the simulated samples in order",
+                                                        "got": xf[j][:6].tolist(), "expected": exp_xf[:6]}, cls=cls)
+                return False
         if n == 0:
             continue
         for col, (y, x) in enumerate(((yf, xf), (yc, xc))):
-            b = _b_ref(x, y)
-            exp = y - b * (x - price_x)
-            sc = _adj_scale(x, y, price_x)
+            sc, _, dc = _col_info(x, y, pr)
+            scale += sc
+            dont_care = dont_care or dc
+            if dc:
+                continue
+            with np.errstate(all="ignore"):
+                b = _b_ref(x, y)
+            exp = y - (x.T - pr) @ b
             if float(np.max(np.abs(A[:, 0, col] - exp))) > 1e-9 * sc:
-                ctx.fail("oracle", "c05.cv_rows", desc, {"what": "adjusted rows are not Y - b*(X - price_X) over the simulated samples with the level's "
-                                                                  "sample regression coefficient", "level": l, "column": col,
+                ctx.fail("oracle", "c05.cv_rows", desc, {"what": "adjusted rows are not Y - b*(X - price_X) over the simulated samples with the level's / column's "
+                                                                  "own sample regression coefficients", "level": l, "column": col,
                                                         "adjusted": A[:4, 0, col].tolist(), "expected": exp[:4].tolist()}, cls=cls)
                 return False
             if col == 0 or l > 0:
-                centred = centred and abs(float(np.mean(x)) - price_x) <= 1e-15 * max(1.0, abs(price_x))
+                centred = centred and all(abs(float(np.mean(x[j])) - pr[j]) <= 1e-15 * max(1.0, abs(pr[j])) for j in range(k))
         total += float(np.mean(A[:, 0, 0])) - float(np.mean(A[:, 0, 1]))
         total_raw += float(np.mean(yf)) - float(np.mean(yc))
+    if dont_care:
+        ctx.excluded_small_margin += 1
     if all(Y.shape[0] > 0 for Y in snap["rows"]):
-        scale = sum(_adj_scale(*(_cv_columns(snap, l)[i] for i in (2, 0)), price_x) + _adj_scale(*(_cv_columns(snap, l)[i] for i in (3, 1)), price_x)
-                    for l in range(len(snap["rows"])))
         if abs(snap["price_cv"] - total) > 1e-9 * scale:
             ctx.fail("oracle", "c05.cv_price", desc, {"what": "price with control variates is not the sum of the per-level adjusted means",
                                                      "price": snap["price_cv"], "expected": total}, cls=cls)
             return False
-        if centred and abs(snap["price_cv"] - total_raw) > 1e-9 * scale:
+        if centred and not dont_care and abs(snap["price_cv"] - total_raw) > 1e-9 * scale:
             ctx.fail("oracle", "c05.cv_mean_identity", desc, {"what": "controls' sample means equal their prices on every level but the adjusted price "
                                                                       "differs from the raw one", "adjusted": snap["price_cv"], "raw": total_raw}, cls=cls)
             return False
@@ -439,45 +478,49 @@ def oracle_cv(ctx, desc, snap, log_upto, specs, cls):
 def compare_read_cv(ctx, desc, snap, m, specs, cls, where):
     """C: model read point (Model/MlmcCv.lean) vs implementation snapshot"""
     nl = len(snap["rows"])
+    k = len(specs)
     detail = None
-    price_x = specs[0][3]
+    pr = np.array([float(sp[3]) for sp in specs])
     if m["L"] + 1 != nl or m["N"] != snap["Nl"] or any(m["err"]):
         detail = {"what": "levels / N_l / shape error flag", "impl": snap["Nl"], "model": [m["N"], m["err"]]}
-    scales = []
+    scales, dont_care = [], False
     for l in range(nl if detail is None else 0):
-        yf, yc, xf, xc = _cv_columns(snap, l)
+        yf, yc, xf, xc = _cv_columns(snap, l, k)
         A = snap["adj"][l]
         if [fr(v) for v in yf] != m["fine"][l] or [fr(v) for v in yc] != m["coarse"][l]:
             detail = {"what": "raw rows differ", "level": l}
-        elif [fr(v) for v in xf] != m["xf"][0][l] or [fr(v) for v in xc] != m["xc"][0][l]:
-            detail = {"what": "control rows differ", "level": l, "impl": xf[:6].tolist(), "model": [float(v) for v in m["xf"][0][l][:6]]}
+        elif any([fr(v) for v in xf[j]] != m["xf"][j][l] or [fr(v) for v in xc[j]] != m["xc"][j][l] for j in range(k)):
+            detail = {"what": "control rows differ", "level": l, "impl": xf[:, :6].tolist(), "model": [[float(v) for v in m["xf"][j][l][:6]] for j in range(k)]}
         elif A.shape[0] != len(m["adjf"][l]):
             detail = {"what": "adjusted array: number of rows", "level": l, "impl": A.shape[0], "model": len(m["adjf"][l])}
         if detail:
             break
-        sf, sc_ = _adj_scale(xf, yf, price_x), _adj_scale(xc, yc, price_x)
+        (sf, _, d1), (sc_, _, d2) = _col_info(xf, yf, pr), _col_info(xc, yc, pr)
         scales.append(sf + sc_)
+        if d1 or d2:
+            dont_care = True
+            continue
         if not (all(close(a, b, scale=sf) for a, b in zip(A[:, 0, 0], m["adjf"][l])) and
                 all(close(a, b, scale=sc_) for a, b in zip(A[:, 0, 1], m["adjc"][l]))):
             detail = {"what": "adjusted rows differ", "level": l, "impl": A[:4, 0, :].tolist(),
                       "model": [[float(a), float(b)] for a, b in zip(m["adjf"][l][:4], m["adjc"][l][:4])]}
             break
         if m["N"][l] > 0:
-            s = sf + sc_
-            if not (close(snap["ml"][l], abs(m["dp"][l]), scale=s) and close(snap["vl"][l], m["vl"][l], scale=s * s)
-                    and close(snap["cl"][l], m["cl"][l]) and close(snap["mean_level"][l], m["fm"][l], scale=s)):
+            s_ = sf + sc_
+            if not (close(snap["ml"][l], abs(m["dp"][l]), scale=s_) and close(snap["vl"][l], m["vl"][l], scale=s_ * s_)
+                    and close(snap["cl"][l], m["cl"][l]) and close(snap["mean_level"][l], m["fm"][l], scale=s_)):
                 detail = {"what": "level statistics read from the adjusted arrays differ", "level": l,
-                          "impl": {k: snap[k][l] for k in ("ml", "vl", "cl", "mean_level")},
+                          "impl": {k_: snap[k_][l] for k_ in ("ml", "vl", "cl", "mean_level")},
                           "model": {"ml": float(abs(m["dp"][l])), "vl": float(m["vl"][l]), "cl": float(m["cl"][l]), "mean": float(m["fm"][l])}}
                 break
-    if detail is None and all(n > 0 for n in m["N"]):
+    if detail is None and not dont_care and all(n > 0 for n in m["N"]):
         if not close(snap["price_cv"], m["price_cv"], scale=sum(scales)) or not close(snap["price"], m["price"], scale=16 * nl):
             detail = {"what": "price", "impl": [snap["price_cv"], snap["price"]], "model": [float(m["price_cv"]), float(m["price"])]}
     if detail:
         detail["name"] = f"Drivers/C05 pricecv trace vs Engine.price with control variates ({where})"
         ctx.fail("corr", "c05.cv.model", desc, detail, cls=cls)
-        return False
-    return True
+        return None
+    return "dont_care" if dont_care else "ok"
 
 
 def cv_trace(ctx, L0, N0, level_max, hist, specs, tag="cv", rates=(1.0, 2.0, 1.0)):
@@ -487,7 +530,7 @@ def cv_trace(ctx, L0, N0, level_max, hist, specs, tag="cv", rates=(1.0, 2.0, 1.0
                 history=[[list(a), bool(b), list(c)] for a, b, c in hist])
     if tuple(rates) != (1.0, 2.0, 1.0):
         desc["rates"] = list(rates)
-    cls = dict(kind="control_variates")
+    cls = dict(kind="control_variates", ncontrols=len(specs))
     with warnings.catch_warnings():
         warnings.simplefilter("ignore")
         with np.errstate(all="ignore"):
@@ -497,7 +540,7 @@ def cv_trace(ctx, L0, N0, level_max, hist, specs, tag="cv", rates=(1.0, 2.0, 1.0
             except Exception as e:
                 ctx.fail("oracle", "c05.engine_raises", desc, {"what": f"{type(e).__name__}: {e}"}, cls=cls)
                 return
-    ctx.count("c05.cv_history", desc, nontrivial=len(r["reads"]) >= 1, branch=tag)
+    ctx.count("c05.cv_history", desc, nontrivial=len(r["reads"]) >= 1, branch=f"{tag}:k{len(specs)}")
     for i, snap in enumerate(r["reads"]):
         if not oracle_cv(ctx, dict(desc, read=i), snap, r["log"][:snap["loglen"]], specs, cls):
             return
@@ -513,22 +556,34 @@ def cv_trace(ctx, L0, N0, level_max, hist, specs, tag="cv", rates=(1.0, 2.0, 1.0
         ctx.fail("corr", "c05.cv.model", desc, {"name": "Drivers/C05 pricecv trace vs Engine.price (outcome)", "impl": [r["outcome"], len(r["reads"])],
                                                 "model": [end[0], len(reads_m)]}, cls=cls)
         return
+    verdicts = []
     for i, (snap, m) in enumerate(zip(r["reads"], reads_m)):
-        if not compare_read_cv(ctx, desc, snap, m, specs, cls, f"read {i}"):
+        verdicts.append(compare_read_cv(ctx, desc, snap, m, specs, cls, f"read {i}"))
+        if verdicts[-1] is None:
             return
     if r["final"] is not None and final_m is not None:
-        if not compare_read_cv(ctx, desc, r["final"], final_m, specs, cls, "final"):
+        if compare_read_cv(ctx, desc, r["final"], final_m, specs, cls, "final") is None:
             return
+    if "dont_care" in verdicts:
+        return
     # every iteration: the callbacks received ml, vl, cl read from the ADJUSTED arrays
-    sc = max([1.0] + [_adj_scale(_cv_columns(sn, l)[2], _cv_columns(sn, l)[0], specs[0][3]) + _adj_scale(_cv_columns(sn, l)[3], _cv_columns(sn, l)[1], specs[0][3])
-                      for sn in r["reads"] for l in range(len(sn["rows"])) if sn["rows"][l].shape[0] > 0])
+    pr = np.array([float(sp[3]) for sp in specs])
+    sc = 1.0
+    for sn in r["reads"]:
+        for l in range(len(sn["rows"])):
+            if sn["rows"][l].shape[0] > 0:
+                yf, yc, xf, xc = _cv_columns(sn, l, len(specs))
+                sc = max(sc, _col_info(xf, yf, pr)[0] + _col_info(xc, yc, pr)[0])
     compare_feeds(ctx, desc, r, [m["feeds"] for m in reads_m], cls, sc, "c05.cv.feeds.model")
 
 
 def gen_controls(rng):
-    kind = rng.choice(["sq", "sq", "call", "call", "fwd"])
-    par = {"sq": 0.0, "call": rng.choice([0.5, 1.0, 2.0]), "fwd": rng.choice([1.5, 10.0])}[kind]
-    return [(kind, par, rng.choice([1.0, 2.0, 0.5]), rng.choice([0.0, 0.5, 3.25, -1.0, 7.0]))]
+    out = []
+    for _ in range(rng.choice([1, 1, 2])):
+        kind = rng.choice(["sq", "sq", "call", "call", "fwd"])
+        par = {"sq": 0.0, "call": rng.choice([0.5, 1.0, 2.0]), "fwd": rng.choice([1.5, 10.0])}[kind]
+        out.append((kind, par, rng.choice([1.0, 2.0, 0.5]), rng.choice([0.0, 0.5, 3.25, -1.0, 7.0])))
+    return out
 
 
 def fixed_on(ctx, eng, max_level, mc, prefix):
@@ -580,7 +635,7 @@ def run(ctx):
     rng = ctx.rng
     for _ in range(ctx.n(10, 150)):
         reuse_mlmc(ctx, rng)
-    for _ in range(ctx.n(12, 200)):
+    for _ in range(ctx.n(16, 200)):
         level_max = rng.randint(1, 5)
         L0 = rng.randint(0, min(2, level_max))
         N0 = rng.choice([3, 5, 10, 20])
